@@ -14,6 +14,7 @@ CONSTANTS
   DevLimiter = FALSE
   DevNilFwd = FALSE
   DevStaleSrc = FALSE
+  DevSleepLimiter = FALSE
   Gen = FALSE
   Emit = FALSE
 INIT Init
